@@ -3,6 +3,7 @@ package keymap
 import (
 	"sort"
 	"strings"
+	"unicode/utf8"
 
 	"github.com/reeflective/readline/inputrc"
 	"github.com/reeflective/readline/internal/core"
@@ -61,6 +62,12 @@ func MatchMain(eng *Engine) (bind inputrc.Bind, command func(), prefix bool) {
 
 	// Find the target action, macro or command.
 	bind, prefix, read, _ := eng.dispatchKeys(binds)
+
+	// Binds are matched byte by byte: a multibyte character matches none,
+	// and is inserted as a whole in the keymaps that insert what is typed.
+	if bind.Action == "" && !prefix && len(read) == 1 && read[0] >= utf8.RuneSelf && eng.insertsText() {
+		bind, prefix, read = eng.matchCharacter(read)
+	}
 
 	if !bind.Macro {
 		command = eng.commands[bind.Action]
@@ -192,6 +199,39 @@ func (m *Engine) matchBind(keys []byte, binds map[string]inputrc.Bind) (inputrc.
 	}
 
 	return match, prefixed
+}
+
+// insertsText returns true if the main keymap is one where unbound
+// printable characters are inserted in the line (as opposed to Vim command).
+func (m *Engine) insertsText() bool {
+	return (m.IsEmacs() || m.main == ViInsert) && !m.config.GetBool("convert-meta")
+}
+
+// matchCharacter is called with the first byte of a multibyte character: it reads
+// its remaining bytes, and returns either the self-insert bind for the complete
+// character, or a prefix match if some of its bytes have not yet been read.
+func (m *Engine) matchCharacter(first []byte) (bind inputrc.Bind, prefix bool, read []byte) {
+	read = first
+
+	for !utf8.FullRune(read) {
+		key, empty := core.PeekKey(m.keys)
+		if empty {
+			return bind, true, read
+		}
+
+		core.PopKey(m.keys)
+
+		read = append(read, key)
+	}
+
+	if char, _ := utf8.DecodeRune(read); char == utf8.RuneError {
+		return bind, false, read
+	}
+
+	bind = inputrc.Bind{Action: "self-insert"}
+	m.active = bind
+
+	return bind, false, read
 }
 
 func (m *Engine) resolve(bind inputrc.Bind) func() {
